@@ -52,7 +52,9 @@ import (
 	"github.com/lindb/lindb/coordinator/broker"
 	"github.com/lindb/lindb/flow"
 	"github.com/lindb/lindb/kv"
+	"github.com/lindb/lindb/kv/table"
 	"github.com/lindb/lindb/models"
+	"github.com/lindb/lindb/pkg/bufioutil"
 	"github.com/lindb/lindb/pkg/option"
 	"github.com/lindb/lindb/pkg/timeutil"
 	protoCommonV1 "github.com/lindb/lindb/proto/gen/v1/common"
@@ -1260,6 +1262,76 @@ func (r *tixRun) big(n, qn int) {
 		}
 		r.queries(qn, 2)
 	}
+}
+
+
+// ---------------------------------------------------------------- questions and writes INSIDE the commit of a flush
+// "Being flushed" is not one instant: a flush writes its table file, commits it to the kv family (manifest record, new
+// version) and only then does the store drop its immutable generation / swap its snapshot.  The table-file seam of the
+// kv layer (kv/table verif hook, the same seam harness/internal/kvwrap uses) lets the driver run code at the moment the
+// file of a flush is complete and the flusher is about to commit it: the flushing goroutine itself asks questions /
+// writes series there (sequential, deterministic: no second thread, no sleep).  For the specification this is the
+// placement "immutable generation waiting for its flush" (the FlushMeta / FlushIdx event is logged when the flush
+// returned), so every answer given inside the window, and every answer given afterwards about entries that exactly
+// this flush persisted, is judged like any other.
+
+type tixTableWriter struct {
+	bufioutil.BufioWriter
+	name string
+}
+
+func (t *tixTableWriter) Close() error {
+	err := t.BufioWriter.Close()
+	if err == nil {
+		tixWin.fire(t.name)
+	}
+	return err
+}
+
+// tixWin: the armed window (at most one; the callback runs on the goroutine that closed the table file)
+type tixWindowSeam struct {
+	mu        sync.Mutex
+	installed bool
+	root      string                     // only files below this directory
+	fn        func(store, family string) // nil = not armed
+	busy      bool
+}
+
+var tixWin tixWindowSeam
+
+func tixInstallWindowSeam() {
+	tixWin.mu.Lock()
+	defer tixWin.mu.Unlock()
+	if tixWin.installed {
+		return
+	}
+	tixWin.installed = true
+	orig := table.VerifGetWriterFunc()
+	table.VerifSetWriterFunc(func(fileName string) (bufioutil.BufioWriter, error) {
+		bw, err := orig(fileName)
+		if err != nil {
+			return bw, err
+		}
+		return &tixTableWriter{BufioWriter: bw, name: fileName}, nil
+	})
+}
+
+func (w *tixWindowSeam) fire(fileName string) {
+	w.mu.Lock()
+	fn, root := w.fn, w.root
+	if fn == nil || w.busy || !strings.HasPrefix(fileName, root+string(filepath.Separator)) {
+		w.mu.Unlock()
+		return
+	}
+	w.busy = true
+	w.mu.Unlock()
+	defer func() {
+		w.mu.Lock()
+		w.busy = false
+		w.mu.Unlock()
+	}()
+	famDir := filepath.Dir(fileName)
+	fn(filepath.Dir(famDir), filepath.Base(famDir))
 }
 
 func tagidxMain(args []string) int {
